@@ -33,7 +33,8 @@ def levels(tier):
             {"name": "pages-n2", "pools": ["a"], "n": 2, "alphabet": ["page"], "defaults": ["domain"],
              "anchored": [(1, 4, "path1")]},
             {"name": "handmade", "pools": ["a"], "n": 1, "prelude": [["we", [[0, 3]]]], "alphabet": ["page", "we"],
-             "defaults": ["subdomain", "path1"], "anchored": [None, (2, 5, "path1")]},
+             "defaults": ["subdomain", "path1"], "anchored": [None, (2, 5, "path1"), (0, 3, "domain")]},
+            {"name": "port", "pools": ["c"], "n": 1, "alphabet": ["page"], "defaults": ["domain", "path1"], "anchored": [None, (1, 4, "path1")]},
             {"name": "install", "pools": ["a"], "n": 2, "alphabet": ["page"], "defaults": ["domain"],
              "anchored": [None], "late_rule": [(1, 4, "path1"), (2, 1, "subdomain")]},
             {"name": "special-hosts", "pools": ["s"], "n": 2, "alphabet": ["page"], "defaults": ["domain", "path1"],
@@ -80,6 +81,9 @@ def expected_potential(E, ref, pl):
     return rule_prefix(pl, ref.default_rule)
 
 
+_T = [None]      # the index under test (set by the harness before each check_created)
+
+
 def check_created(E, info, label_prefix=""):
     rep = info["report"]
     created = info["created"]
@@ -92,6 +96,9 @@ def check_created(E, info, label_prefix=""):
         E.check(len(prefixes) == len(valid), "created:prefix-set", "webentity %d owns %d prefixes, rules + variations give %d" % (weid, len(prefixes), len(valid)))
         if len(valid) >= 3:
             E.reach("www-variation")
+        for x in prefixes:
+            ok, owner = E.call("get_webentity_by_prefix", _T[0].get_webentity_by_prefix, x)
+            E.check(ok and owner == weid, "created:reachable", "a prefix reported as created cannot be found attached to webentity %d" % weid)
         for v in valid:
             hit = False
             for x in prefixes:
@@ -153,6 +160,7 @@ def harness(E):
             continue
         if kind in ("delwe", "reopen"):
             continue
+        _T[0] = h.t
         check_created(E, info)
         for pl in info.get("pages", []):
             w, p = ref.resolve(pl)
@@ -168,6 +176,7 @@ def harness(E):
         ref.name(a)
         ref.rules.set(a.lru, rn)
         h.install_model(a, rep)
+        _T[0] = h.t
         check_created(E, {"report": rep, "created": list(ref.created)})
     z = E.const(b"p:zz|")
     battery(E, h.t, ref, pool, pool[0].extend(z, "P0+z"))
